@@ -73,7 +73,9 @@ const TYPED: [&str; 4] = ["TRUE", "12", "abc", "'x"];
 pub fn h_c18_reenter_after_typing_over() {
     let (mut model, r, c, _first) = menu_cell_model(false);
     let t = any_usize_to(TYPED.len() - 1);
-    if model.set_user_input(0, r, c, TYPED[t].to_string()).is_err() { check("C18.typed_over.accepted", false); return; }
+    let accepted = model.set_user_input(0, r, c, TYPED[t].to_string()).is_ok();
+    check("C18.typed_over.accepted", accepted);
+    if !accepted { return; }
     let cell = cell_at(&model, r, c);
     let shown = match model.get_localized_cell_content(0, r, c) { Ok(s) => s, Err(_) => { check("C18.typed_over.cell_reproduced", false); return; } };
     let ok = model.set_user_input(0, r, c, shown.clone()).is_ok();
